@@ -25,6 +25,7 @@ ASSUMPTIONS = [
     'set_recipients_delivered takes an "iterable of indexes": the same index sets are passed as list, tuple, set, frozenset, range, dict keys view, generator expression, iter(list), filter object, map object and a user-defined iterable class. The model sees the list of indexes one traversal yields; that one-shot iterables are traversed once only is exercised by the harness, "consumed twice" is not expressible in the model',
     'RedisStorage is run with a rotating set of key prefixes (empty, with and without a trailing colon, containing colons, slashes, dots, regex and glob metacharacters * and ?); a prefix containing "[" is probed and reported, not judged (KEYS takes a glob)',
     'disk, variant "two handles": two simultaneously live DiskStorage objects on the same directories, operations alternating between them, a fresh one at the end - outside the property as written (it speaks of a backend answering a sequence of operations, and of a NEW queue after a crash), judged because a deploy overlaps the old and the new process',
+    'recipient-count dimension: envelopes with 9 to 100 recipients and sparse / dense / complete / empty index sets (indexes beyond 8, 16, 32 and 64), duplicates inside one round, one to three rounds. The model needs no change: index lists are arbitrary lists of naturals, the refinement and round theorems quantify over all of them',
     'uuid4 is steered: the id-allocation loops draw from scripted candidates (collisions with live and removed ids included); mkstemp names are scripted',
     'redis runs come in two variants: announcements left on the list, and consumed by wait() before every load(); ids returned by load()/wait() are compared with == and type identity against what write() returned',
     'redis: besides the FakeRedis method-level stand-in, the sequences and an overlap stream run through the REAL redis-py client, GeventConnection and ConnectionPool that RedisStorage constructs, against an in-process RESP server (storefakes.RespServer, loopback socket, a few ms latency per command so that up to 40 operations are in flight at once)',
@@ -706,6 +707,8 @@ def run_sequences(ctx, seqs, label, judged=True, cfgs=None):
                                     key = 'c15:redis-load-raises-on-half-written-entry'
                                 if cfg.get('handles', 1) > 1:
                                     key = 'c15:disk-two-handles-%s' % o[0]
+                                if label == 'many-recipients' and o[0] == 'get' and key == 'c15:%s-get' % b:
+                                    key = 'c15:delivered-marks-wrong-with-many-recipients'
                                 fail(ctx, key, dict(case, at=j),
                                          '%s %r returned %r, the reference store returns %r' % (b, o, got, want))
                             else:
@@ -738,6 +741,49 @@ def stream_exhaustive(ctx, maxlen):
     tail = [('load', 99), ('get', 1), ('get', 2)]
     seqs = [(ops + tail, forms + ['set'] * 3, ids) for ops, forms, ids in seqs]
     run_sequences(ctx, seqs, 'exhaustive', cfgs={'disk': [dict(codec=True, chunk=16)], 'cloud': [dict(mq=True)]})
+    return len(seqs)
+
+
+SPARSE = [(1, 8), (2, 9), (5, 17, 33), (10, 3), (4, 9, 10, 11), (0, 64), (7, 8), (8,), (15, 16, 31, 32), (0,), (8, 99)]
+
+
+def stream_many_recipients(ctx, counts):
+    """the recipient-COUNT dimension: envelopes with many recipients, few / many / all / none of them
+    marked (indexes >= 8, 16, 32, 64 included), duplicates inside one round, one to three rounds"""
+    rng = ctx.rng
+    seqs = []
+    for n in counts:
+        rc = tuple('r%d@ex.org' % i for i in range(n))
+        env = ('s@ex.org', rc, CONTENTS[0])
+        sets = [tuple(x) for x in SPARSE if max(x) < n]
+        sets += [tuple(range(0, n, 2)), tuple(i for i in range(n) if i % 5), tuple(range(n)), (),
+                 (3, 3), (7, 1, 7), tuple(sorted(rng.sample(range(n), min(n, 6))))]
+        for k, idxs in enumerate(sets):
+            form = ['set', 'list', 'genexpr', 'frozenset', 'tuple', 'iter'][k % 6]
+            if len(set(idxs)) != len(idxs):
+                form = 'list'                       # duplicates need a sequence
+            ops = [('write', env, 5, (1,), (1, 2)), ('deliv', 1, idxs, (3, 4)), ('get', 1)]
+            forms = ['set', form, 'set']
+            # further rounds, relative to what get() returns now
+            left = n - len(set(idxs)) if len(set(idxs)) == len(idxs) else None
+            t = 5
+            for rd in range(2):
+                if left is None or left < 2:
+                    break
+                nxt = tuple(x for x in ((1, 8), (0, left - 1), (left // 2,), (8, 9, 10))[(k + rd) % 4] if x < left)
+                nxt = tuple(dict.fromkeys(nxt))
+                if not nxt:
+                    break
+                ops += [('deliv', 1, nxt, (t, t + 1)), ('get', 1)]
+                forms += [['set', 'list', 'genexpr'][(k + rd) % 3], 'set']
+                left -= len(nxt)
+                t += 2
+            ops += [('incr', 1, (t, t + 1)), ('load', 9), ('get', 1)]
+            forms += ['set'] * 3
+            seqs.append((ops, forms, [1]))
+    cfgs = {'disk': [dict(codec=True, chunk=61), dict(codec=False)], 'dict-shelve': [{}],
+            'cloud': [dict(mq=True)]}
+    run_sequences(ctx, seqs, 'many-recipients', cfgs=cfgs)
     return len(seqs)
 
 
@@ -1109,6 +1155,8 @@ def run(ctx):
         stream_random(ctx, 150 if q else 3000, 14)
     with sf.FdGuard('c15 exhaustive'):
         nex = stream_exhaustive(ctx, 3 if q else 4)
+    with sf.FdGuard('c15 many recipients'):
+        stream_many_recipients(ctx, (9, 12, 17, 33) if q else (9, 12, 17, 33, 40, 100))
     with sf.FdGuard('c15 misuse'):
         stream_misuse(ctx, 80 if q else 1500, 10)
     with sf.FdGuard('c15 rounds'):
